@@ -69,6 +69,14 @@ func (cs *c04xCase) build() (patch, file string) {
 			}
 		}
 		f.WriteString("\tpost()\n}\n")
+	case "orphan":
+		// an elision on the '+' side only: there is nothing it could stand for
+		p.WriteString("@@\nvar x expression\n@@\n-tgt(" + strings.Join(cs.Pattern, ", ") + ")\n+tgq(" + strings.Join(append(append([]string{}, cs.Pattern...), "..."), ", ") + ")\n")
+		f.WriteString("package p\n\nfunc f() {\n")
+		for _, l := range cs.Lists {
+			f.WriteString("\ttgt(" + strings.Join(l, ", ") + ")\n")
+		}
+		f.WriteString("}\n")
 	case "plus-first", "pair":
 		// one call pattern, the same on both sides but for the callee. In
 		// "plus-first" it has a single elision and the '+' line stands above
@@ -280,6 +288,16 @@ func evalC04x(cs *c04xCase) (sig, msg string, nontrivial bool, note string) {
 			}
 		}
 		return "", "", nontrivial, ""
+	case "orphan":
+		switch {
+		case r.Failed():
+			return "", "", false, "foreign:C08"
+		case r.ParseErr != "" || r.ApplyErr != "":
+			return "", "", true, "" // refused: fine
+		case string(r.Out) == file:
+			return "", "", true, "" // not carried out: fine
+		}
+		return "orphan:elision-without-counterpart-accepted", fmt.Sprintf("the '...' of the '+' line has no '...' on the '-' side to stand for, yet the change is carried out (the elision silently stands for nothing)\n%s", show()), true, ""
 	case "plus-first", "pair":
 		switch {
 		case r.Failed():
@@ -401,6 +419,18 @@ func c04xDraw(rt *rapid.T) *c04xCase {
 		if !hasChange {
 			cs.Lines[0].Prefix = "-"
 		}
+		return cs
+	}
+	if rapid.IntRange(0, 11).Draw(rt, "orphan") == 0 {
+		cs := &c04xCase{Mode: "orphan"}
+		cs.Pattern = append([]string{}, rapid.SampledFrom([][]string{{}, {"a"}, {"x"}, {"a", "x"}}).Draw(rt, "orphanPattern")...)
+		cs.Lists = [][]string{append([]string{}, cs.Pattern...)}
+		for i, e := range cs.Lists[0] {
+			if e == "x" {
+				cs.Lists[0][i] = "f(c)"
+			}
+		}
+		cs.Lists = append(cs.Lists, []string{"b", "b"})
 		return cs
 	}
 	if rapid.IntRange(0, 5).Draw(rt, "pair") == 0 {
